@@ -563,7 +563,14 @@ pub fn gen_op(rng: &mut StdRng, g: &GenCfg, len: u64, writable: bool) -> Op {
     if x < acc && len > 0 {
         // cores spanning several bitfield pages: often start exactly at / next to a page edge
         let edges: Vec<u64> = [8191u64, 8192, 8193, 32767, 32768, 32769, 65535, 65536, 65537].iter().copied().filter(|e| *e < len).collect();
-        let s = if !edges.is_empty() && rng.gen_bool(0.35) { edges[rng.gen_range(0..edges.len())] } else { rng.gen_range(0..len) };
+        let pages: Vec<u64> = [32768u64, 65536].iter().copied().filter(|e| *e < len).collect();
+        let s = if !pages.is_empty() && rng.gen_bool(0.25) {
+            pages[rng.gen_range(0..pages.len())] // exactly the first index of a bitfield page
+        } else if !edges.is_empty() && rng.gen_bool(0.3) {
+            edges[rng.gen_range(0..edges.len())]
+        } else {
+            rng.gen_range(0..len)
+        };
         let e = match rng.gen_range(0..10) {
             0 => len + rng.gen_range(1..40_000),
             1 => len,
